@@ -1267,7 +1267,7 @@ func TestVerif_C15_Issuance(t *testing.T) {
 		t.Fatalf("key pool: %v", err)
 	}
 	shard, nshards := kit.Shard()
-	mounts := kit.N(8, 320)
+	mounts := kit.N(6, 320)
 	reqsPerRole := kit.N(20, 24)
 	extraRoles := kit.N(10, 14)
 	onlyM, onlyR, onlyQ, haveOnly := -1, -1, -1, false
